@@ -217,8 +217,11 @@ def oracle(case):
 		if text(got) != want_text:
 			return {'what': 'the result is written %r, the reference %r alone decides and nothing in it needs escaping' % (text(got), want_text), 'base': base, 'ref': ref, 'finding': None}
 	# the authority with user information, read off the RFC result without the library's parser (a password may contain colons)
-	if ta and ts in (u'http', u'https') and _re2.match(u'^[a-z0-9:]*@[a-z0-9.]+(:[0-9]+)?$', ta):
+	if ta and ts in (u'http', u'https') and _re2.match(u'^([a-z0-9:]|%3A|%40)*@[a-z0-9.]+(:[0-9]+)?$', ta):      # (escaped colons and at-signs stay escaped)
 		want_auth = _re2.sub(u':(80|443)$', u'', ta) if ta.endswith(u':80' if ts == u'http' else u':443') else ta
+		ui_, _at, hp_ = want_auth.rpartition(u'@')
+		un_, colon_, pw_ = ui_.partition(u':')
+		want_auth = un_ + colon_ + pw_.replace(u'%3A', u':') + _at + hp_      # a colon inside the password needs no escape (the first raw colon ends the user name)
 		if want_auth.split(u'@')[0].endswith(u':') and want_auth.count(u':') == 1:
 			want_auth = want_auth.replace(u':@', u'@')      # an empty password is not written
 		t = text(got)
